@@ -159,6 +159,9 @@ def place_effect_attrs(rng, p):
                 eff["alias"].append((h["hid"], alias))
             for a in h["args"]:
                 ty = p["types"][a["ti"]]
+                from . import types as T_
+                if T_.params_in(ty):
+                    continue   # serde(default) on a field mentioning a type parameter makes the derive demand `Param: Default`
                 if ty.kind in DEFAULTABLE and all(s.kind in DEFAULTABLE or True for s in ty.sub) and rng.random() < 0.4:
                     a["attrs"] = ["serde(default)"]
                     eff["default"].append((h["hid"], a["name"]))
